@@ -10,7 +10,7 @@ from simkit.world import digest
 ID = "C27"
 LEVEL = "exploration"
 ENGINE = "simkit/proxy-world"
-QUICK_RUNS = 12000
+QUICK_RUNS = 30000
 QUICK_BUDGET_S = 150
 THOROUGH_BUDGET_S = 900
 CHUNK = 50
@@ -393,7 +393,12 @@ def execute(sc):
     if len(variants) == 2 and transport == "tcp":
         probes["two_variants_compared"] = 1
         a, b = variants
-        if getattr(a, "extracted", None) != getattr(b, "extracted", None):
+        # when the upstream goes away in the middle of the history, how much the proxy still reads depends on when
+        # that happens relative to the client's segments: no comparison then
+        upstream_left = any(v.fired.get("upstream_close") for v in variants)
+        if upstream_left:
+            pass
+        elif getattr(a, "extracted", None) != getattr(b, "extracted", None):
             _, malformed, _ = ref_extract(a.client_stream)
             viol.append({"class": "segmentation_dependent", "key": {"what": "extracted_messages", "malformed_prefix_in_stream": malformed},
                          "msg": f"same client byte stream ({len(a.client_stream)} octets): {len(a.extracted)} messages extracted with "
